@@ -18,12 +18,19 @@ def run(ctx):
                         "free-byte count are the same variable")
     res.rule("C01-R4", "decoder side: the reassembler appends under exactly the protocol's conditions and rejects a well-formed continuation for no "
                         "other reason (C05-R5/R7), and copies each segment's declared length only (C05-R4)")
+    res.rule("C01-R5", "every message the encoder starts it also finishes: a packet is marked segmented exactly when it does not fit an empty frame "
+                        "(C08-R4: decided against a freshly opened frame, at the exact boundary `free < 16 + payload length`), and the flag table gives "
+                        "first/intermediary/last by position (C08-R1) — otherwise a packet that fits exactly goes out as a lone first segment that no "
+                        "decoder ever completes")
     res.not_decided += ["byte equality of decoded and original packets over all batches x frame sizes (run-time values)",
                         "tagging with the encoder's ids (C09-R3), mixed batches (C08-R3), layout premises (C12), decoder premises (C04/C05)"]
     n1 = E.rule_segment_source_advances(res, "C01-R1", m)
     E.rule_header_tables_agree(res, "C01-R2", m)
     E.rule_one_length(res, "C01-R3", m)
     E.rule_header_fully_stamped(res, "C01-R3", m)
+    E.rule_fit_decided_on_fresh_frame(res, "C01-R5", m)
+    E.rule_flag_table(res, "C01-R5", m)
+    res.floor("C01-R5", 6)
     dm = D.DecodeModel(fb)
     D.rule_accept_guard(res, "C01-R4", dm)
     D.rule_reject_reasons(res, "C01-R4", dm)
